@@ -5,7 +5,7 @@
    by ownership destruction, release() discarded or co_await release().
    holds s c   : c owns the mutex (from its successful CAS / the hand-over to the end of its unlock)
    waiting s c : c has published a request that was not granted yet. *)
-From Cocls Require Import Base BaseProofs MutexDefs MutexProofs MutexSched.
+From Cocls Require Import Base BaseProofs MutexDefs MutexProofs MutexSched MutexObs.
 Local Open Scope Z_scope.
 
 (* at most one owner in every reachable state *)
@@ -75,6 +75,16 @@ Print Assumptions c07_never_concurrent_with_itself.
 Theorem c07_location_invariant_inductive : forall s t, SInv s -> LInv s -> enabled s t = true -> LInv (fst (fst (tstep s t))).
 Proof. exact step_linv. Qed.
 Print Assumptions c07_location_invariant_inductive.
+
+(* observable form: the scenario's critical-section overlap detector never fires; at most one contender is inside the
+   critical section, it owns the mutex and is at the cs point; a contender waiting in a ready queue is not inside *)
+Theorem c07_overlap_never : forall ops s, reachable ops s ->
+  ovl s = false /\
+  (forall x y, incs (gtask s x) = true -> incs (gtask s y) = true -> x = y) /\
+  (forall x, incs (gtask s x) = true -> holds s x /\ tpc (gtask s x) = PCs) /\
+  (forall t x, In x (tq (gthr s t)) -> incs (gtask s x) = false).
+Proof. exact overlap_never. Qed.
+Print Assumptions c07_overlap_never.
 
 (* non-vacuity: coroutine 0 owns the mutex, coroutine 1 has published and its thread is still inside
    await_suspend, plain thread 2 has published too *)
